@@ -117,6 +117,7 @@ type chainStep struct {
 
 func checkC14(c *Ctx) {
 	r := c.R
+	r.Rule("R10.1", "(shared with C10) a logger's skip count is written only by its own SetSkip/WithSkip: no function stores a setting of one logger into another (SetDefault included)")
 	r.Rule("R10.3", "(shared with C10) a new logger starts with skip count 0: newentry copies from the parent only the documented settings (nothing-else rule)")
 	r.Rule("R18.2", "(shared with C18) the file reported is the frame's file, hardened: the shorter-equivalent step computes the path of the FILE relative to the working directory (arguments of filepath.Rel in that order)")
 	r.Rule("R14.7", "file, line and function are reported under their own keys: wherever a package function hands its parameters on to a package function with same-named parameters (key prefix / key name of the caller sub-fields, skip counts, frames), each goes to its namesake; a same-typed pair passed crosswise is a violation")
@@ -143,6 +144,7 @@ func checkC14(c *Ctx) {
 		c14Frames(c, p, m)
 		c14Flow(c, p, m)
 		c14FuncName(c, p)
+		c14NoInterfaceReentry(c, p, m)
 		var slogFns []*ssa.Function
 		for _, fn := range p.RepoFuncs() {
 			if fn.Pkg == p.Slog {
@@ -156,6 +158,7 @@ func checkC14(c *Ctx) {
 		freshChildren(c, p, m, "R14.3", func(n string) bool { return n == "WithSkip" })
 		c10WithSet(c, p, m)
 		c10Creation(c, p, m)
+		c10Frames(c, p, m)
 		c18Check(c, p, m)
 	}
 	c.Floor["R14.1"] = 50
@@ -1234,4 +1237,47 @@ func c14PrintDecision(c *Ctx, p *Prog, m *Model) {
 	if n == 0 {
 		r.Unk("R14.5", "print-decision", "-", "the caller printer is not called")
 	}
+}
+
+// c14NoInterfaceReentry: an entry point that captures the caller's pc must be entered from user code. No dispatcher of
+// the package-level verbs calls a logging entry point through the logger interfaces (an invoke of Info/Warn/LogAttrs/... on an
+// interface value): whatever implements it captures the pc at its own depth, so the record would be attributed to
+// the package's own function (the dispatcher) instead of the statement in user code.
+func c14NoInterfaceReentry(c *Ctx, p *Prog, m *Model) {
+	r := c.R
+	methods, _ := entryPointNames(p)
+	isEntry := map[string]bool{}
+	for _, n := range methods {
+		isEntry[n] = true
+	}
+	var bad []string
+	n := 0
+	for _, fn := range p.RepoFuncs() {
+		// the dispatchers of the package-level verbs: package-level functions on the emission spine (a diagnostic the
+		// package logs about itself, and the handler's fallback for foreign Logger implementations, are not user records
+		// of the package's own loggers)
+		if fn.Pkg != p.Slog || fn.Signature.Recv() != nil || !m.Spine[fn] {
+			continue
+		}
+		for _, cs := range callsIn(fn) {
+			if !cs.Common().IsInvoke() {
+				n++
+				continue
+			}
+			n++
+			name := nm(cs.Common().Method)
+			if !isEntry[name] {
+				continue
+			}
+			// an interface of the package's logger family (not, say, a testing.TB's Log)
+			it := cs.Common().Value.Type()
+			if nt := namedOf(it); nt == nil || nt.Obj().Pkg() == nil || nt.Obj().Pkg() != p.Slog.Pkg {
+				continue
+			}
+			bad = append(bad, fmt.Sprintf("%s invokes %s at %s", shortName(fn), name, p.Pos(instrPos(cs))))
+		}
+	}
+	sort.Strings(bad)
+	r.Check(len(bad) == 0, "R14.1", "no-interface-reentry", "-", fmt.Sprintf("none of the %d calls in the package-level dispatchers is a logging entry point reached through an interface", n),
+		"a logging entry point is called through the logger interface from inside the package ("+strings.Join(bad, "; ")+"): the implementation captures the caller at its own depth, so these records are attributed to the package's own function instead of the statement in user code")
 }
